@@ -381,6 +381,49 @@ theorem serverLoop_sound (cfg : List (String × Mech)) (peer : List SEv) : ∀ (
           (by simp [SRes.after_consumed, e2]; omega) e3 e4 e5 e6
           (by simp [SRes.after_used, e7]) (by simp [SRes.after_hist, e8]) e9 (e10.after _ _)
 
+/-! ### sessions in small steps -/
+
+theorem SSess.iter_finished (cfg : List (String × Mech)) (r : SRes) : ∀ k,
+    SSess.iter cfg k (.finished r) = .finished r := by
+  intro k; induction k with
+  | zero => rfl
+  | succ k ih => simpa [SSess.iter, SSess.step] using ih
+
+theorem SSess.iter_add (cfg : List (String × Mech)) : ∀ (a b : Nat) (s : SSess),
+    SSess.iter cfg (a + b) s = SSess.iter cfg b (SSess.iter cfg a s) := by
+  intro a; induction a with
+  | zero => intro b s; simp [SSess.iter]
+  | succ a ih => intro b s; rw [Nat.add_right_comm]; simp only [SSess.iter]; exact ih b _
+
+theorem SRes.after_prefixed (r : SRes) (resp : Bytes) (ps : List PermCall) (sent : List SSent)
+    (perms : List PermCall) (n : Nat) :
+    (r.after [.challenge resp] ps).prefixed sent perms n =
+      r.prefixed (sent ++ [.challenge resp]) (perms ++ ps) (n + 1) := by
+  simp only [SRes.after, SRes.prefixed, List.append_assoc]
+  congr 1
+  omega
+
+/-- a session run alone for one quantum more than its script is long has finished, with the
+result of the big-step loop -/
+theorem SSess.iter_serverLoop (cfg : List (String × Mech)) (peer : List SEv) :
+    ∀ (cur : Option SCur) (sent : List SSent) (perms : List PermCall) (n : Nat),
+    SSess.iter cfg (peer.length + 1) (.running cur peer sent perms n) =
+      .finished ((serverLoop cfg cur peer).prefixed sent perms n) := by
+  induction peer with
+  | nil => intro cur sent perms n; simp [SSess.iter, SSess.step, serverLoop]
+  | cons ev rest ih =>
+    intro cur sent perms n
+    have e : SSess.iter cfg ((ev :: rest).length + 1) (.running cur (ev :: rest) sent perms n)
+        = SSess.iter cfg (rest.length + 1) ((SSess.running cur (ev :: rest) sent perms n).step cfg) := rfl
+    rw [e]
+    cases hev : sevent cfg cur ev with
+    | stop r =>
+      simp only [SSess.step, hev, serverLoop]
+      exact SSess.iter_finished cfg _ _
+    | cont c resp ps =>
+      simp only [SSess.step, hev, serverLoop]
+      rw [ih (some c), SRes.after_prefixed]
+
 /-- the three outcomes of PLAIN's only step on the receiving side -/
 theorem plainServer_spec (perm : Bytes → Bytes → Bytes → Bool) (d : Bytes) :
     (∃ ident user pass, splitZero d = [ident, user, pass] ∧ perm user pass ident = true ∧
